@@ -273,7 +273,10 @@ class CallMixin:
                 dfr = Frame(None, self.prog.modules[fi.module], None, None, fr.depth + 1)
                 st.env[p.arg] = self.eval(d, State(), dfr)
         if a.vararg is not None:
-            st.env[a.vararg.arg] = AV(types=frozenset({"tuple"}), elem=_strip(join_all(pos)) if pos else None)
+            # *args: the surplus positional arguments, position by position
+            st.env[a.vararg.arg] = AV(types=frozenset({"tuple"}), elem=_strip(join_all(pos)) if pos else None,
+                                      items=tuple(pos) if len(pos) <= 8 else None,
+                                      quals=frozenset({EMPTYQ}) if not pos else frozenset())
             pos = []
         if a.kwarg is not None:
             st.env[a.kwarg.arg] = AV(types=frozenset({"dict"}))
@@ -695,6 +698,12 @@ class CallMixin:
             self.record_field_elem(locs, added, how, frame)
         if added is not None:
             added = added.with_deps(st.ctrl)
+            # `cells[k].append(v)` / `cells.setdefault(k, []).append(v)`: the cell that receives v is selected by k, so what
+            # ends up in a given cell depends on k
+            rnode = getattr(getattr(n, "func", None), "value", None)
+            sel = getattr(frame, "sel_deps", None)
+            if sel and isinstance(rnode, ast.Subscript) and id(rnode) in sel:
+                added = added.with_deps(sel[id(rnode)])
         self.ev(frame, st, "write", n, recv=recv, value=added, target=locs, wkind="mutate:" + name)
         if locs:
             frame.mutations.append((locs, added, how))
